@@ -846,6 +846,12 @@ func (u *connectUnaryUnmarshaler) UnmarshalFunc(message any, unmarshal func([]by
 		// Attempt to read to end in order to allow connection re-use
 		discardedBytes, err := io.Copy(io.Discard, u.reader)
 		if err != nil {
+			// The reader may already have classified the failure (for example as
+			// canceled or deadline_exceeded): keep its code, as the enveloped
+			// protocols do.
+			if connectErr, ok := asError(err); ok {
+				return connectErr
+			}
 			return errorf(CodeInvalidArgument, "message is larger than configured max %d - unable to determine message size: %w", u.readMaxBytes, err)
 		}
 		return errorf(CodeInvalidArgument, "message size %d is larger than configured max %d", bytesRead+discardedBytes, u.readMaxBytes)
